@@ -292,7 +292,7 @@ func (w *World) abortedMerge(ins []*SegH, drops []*roaring.Bitmap) {
 		close(ch)
 	}
 	_, _, err := plugin.Merge(segs, drops, p, ch, sr)
-	r.ev("aborted-merge k=%d err=%v", k, err != nil)
+	r.evv(fmt.Sprintf("aborted-merge k=%d", k), "aborted-merge k=%d err=%v", k, err != nil) // outcome depends on the map-ordered section loop
 	if err != nil {
 		r.count("fault.merge.cancelled")
 	}
